@@ -37,7 +37,8 @@ def main():
         try:
             for p in plist:
                 t0 = time.time()
-                rc, out = sh('./check %s%s' % (p, (' --only ' + only) if only else ''))
+                import shlex
+                rc, out = sh('./check %s%s' % (p, (' --only ' + shlex.quote(only)) if only else ''))
                 vio = [l for l in out.splitlines() if l.startswith(('VIOLATION', 'CHECKER-ERROR'))]
                 summ = [l for l in out.splitlines() if l.startswith(p + ':')]
                 print('%s  %s  exit=%d  %.0fs  %s' % (mid, p, rc, time.time() - t0, summ[-1][:160] if summ else out[-300:]))
